@@ -1,3 +1,4 @@
+import SsoSpec.C02
 import SsoSpec.C11
 import SsoSpec.C15
 import SsoSpec.C16
